@@ -452,4 +452,71 @@ example : (dbFlush (removeTaskFromFlows cexState "b" 1 [1]).1).stRows.map (·.fl
 /-- `flows_removed`: a proxy in flows 1 and 2 removed from flow 1 keeps flow 2 -/
 example : diffF [1, 2] (({ pt := 1, name := "b", flows := [1, 2] } : Proxy).matchFlows [1]) = [2] := by decide
 
+/-! ### more concrete values: the hypotheses of the theorems above are satisfiable -/
+
+/-- `unset_exactly_natural`, `forced_kept`, `other_tasks_kept`, `natural_unset`, `changed_iff`: a prerequisite with a
+naturally satisfied atom on `1/a`, a forced atom on `1/a`, and a naturally satisfied atom on `2/a` -/
+example :
+    let p : Pre := { atoms := [(⟨1, "a", "succeeded"⟩, .nat), (⟨1, "a", "started"⟩, .forced), (⟨2, "a", "succeeded"⟩, .db)],
+                     expr := none }
+    (p.unsetNatural 1 "a").1.atoms =
+      [(⟨1, "a", "succeeded"⟩, .no), (⟨1, "a", "started"⟩, .forced), (⟨2, "a", "succeeded"⟩, .db)] ∧
+    (p.unsetNatural 1 "a").2 = true ∧ (p.unsetNatural 3 "a").2 = false := by decide
+
+/-- `child_removed` / `child_leaves_iff`: in the state before `cylc remove 1/a` of the workflow above the child `1/b` meets
+every hypothesis (concerned, a prerequisite unset, no longer ready, not matched, nothing satisfied any more) -/
+example :
+    let st := final (exGraph false) [Op.loop, .subres 1 "a" true 1, .subres 1 "c" true 1, .msg 1 "a" 1 "started", .loop]
+    ∃ c, st.get? 1 "b" = some c ∧ (c.matchFlows []).isEmpty = false ∧ childChanged c (1, "a") = true ∧
+      stillReady c (1, "a") [] = false ∧
+      ([(1, "a")].contains (1, "b") || ((unsetChild c (1, "a")).reset (queued := some false)).anySatisfied) = false := by
+  refine ⟨_, rfl, ?_⟩
+  decide +kernel
+
+/-- `child_kept` (a child in another flow too is still "ready") and `child_untouched` (not concerned) -/
+example :
+    let c : Proxy := { pt := 1, name := "b", flows := [1, 2],
+                       pre := [{ atoms := [(⟨1, "a", "succeeded"⟩, .nat)], expr := none }] }
+    childChanged c (1, "a") = true ∧ stillReady c (1, "a") [1] = true ∧ (c.matchFlows [3]).isEmpty = true ∧
+    childChanged c (1, "x") = false := by decide
+
+/-- `flows_removed`, `leaves_pool_iff_none_remain`: a pooled proxy in flows 1 and 2 -/
+example :
+    let x : Proxy := { pt := 1, name := "b", flows := [1, 2] }
+    let s : State := { pool := [x] }
+    s.get? x.pt x.name = some x ∧ (x.matchFlows [1] == x.flows) = false ∧ x.matchFlows [] = x.flows ∧
+    (removePooled cexGraph s x (x.matchFlows [1])).pool.map (·.flows) = [[2]] ∧
+    (removePooled cexGraph s x (x.matchFlows [])).pool.map (·.flows) = [] := by
+  refine ⟨rfl, ?_⟩
+  decide +kernel
+
+/-- `history_erased`, `other_history_kept`, `history_forgotten`, `erase_then_respawn`: two rows of `1/b` (flows 1 and
+1,2), one of `1/a`; erasing flow 1 leaves `1/b` with flows [] and [2] and `1/a` alone; flow 1 has no history then -/
+example :
+    let s : State := { stRows := [⟨"b", 1, [1], 1, false, .succeeded, false⟩, ⟨"b", 1, [1, 2], 1, false, .succeeded, false⟩,
+                                  ⟨"a", 1, [1], 1, false, .succeeded, false⟩] }
+    Quiet s ∧
+    (dbFlush (removeTaskFromFlows s "b" 1 [1]).1).stRows.map (fun r => (r.name, r.flows)) =
+      [("b", []), ("b", [2]), ("a", [1])] ∧
+    (taskHistory s "b" 1 [1]).2 = (some .succeeded, false) ∧
+    (taskHistory (dbFlush (removeTaskFromFlows s "b" 1 [1]).1) "b" 1 [1]).2 = (none, false) := by
+  refine ⟨⟨rfl, rfl, rfl, rfl⟩, ?_⟩
+  decide +kernel
+
+/-- `runs_again`: with that history erased `spawn_task` hands out `1/b` as a new waiting instance -/
+example :
+    let s : State := { stRows := [⟨"b", 1, [], 1, false, .succeeded, false⟩] }
+    ((spawnTask (exGraph true) s "b" 1 [1]).2.map fun x => (x.status, x.done, x.flows, x.submitNum)) =
+      some (.waiting, [], [1], 1) := by decide +kernel
+
+/-- `kill_leaves_pool`, `removal_frame`: removing the running `1/a` kills its job on the transient object; `1/c` is
+outside the closure of `1/a` and is the same object afterwards -/
+example :
+    let st := final (exGraph false) [Op.loop, .subres 1 "a" true 1, .subres 1 "c" true 1, .msg 1 "a" 1 "started", .loop]
+    (1, "c") ∉ [(1, "a")].flatMap (closure1 (exGraph false)) ∧
+    (removeCore (exGraph false) st [(1, "a")] []).2.1 = [(1, "a")] ∧
+    ((killTasks (exGraph false) (removeCore (exGraph false) st [(1, "a")] []).1 [(1, "a")]).ghosts.map
+      fun x => (x.pt, x.name, x.status, x.removed)) = [(1, "a", .failed, true), (1, "b", .waiting, false)] := by
+  decide +kernel
+
 end CylcModel.C30
